@@ -198,7 +198,10 @@ func c18Spoof(c *mon.Ctx) {
 		proto := pg.proto
 		before := socketInodes()
 		// (clients subscribed to a multicast group and plain unicast clients, as NewAuditClient opens them)
-		cl, err := libaudit.NewNetlinkClient(proto, pg.groups, make([]byte, 32768), nil)
+		// the client copies what it receives to a writer of the caller's (the `resp` argument): data of a datagram
+		// that Receive refuses must not get there either ("returns an error - never data")
+		var respBuf bytes.Buffer
+		cl, err := libaudit.NewNetlinkClient(proto, pg.groups, make([]byte, 32768), &respBuf)
 		if err != nil {
 			c.Note("spoof: cannot open protocol %d client: %v", proto, err)
 			continue
@@ -280,6 +283,11 @@ func c18Spoof(c *mon.Ctx) {
 					c.Add("spoofed_shorter_than_header", 1)
 				}
 				c.DistinctSet("nontrivial").AddBytes(append([]byte{byte(proto)}, d...))
+				if respBuf.Len() > 0 {
+					c.Violation("spoofed-data-copied-to-caller", fmt.Sprintf("Receive refused a %d-byte datagram from a user-space sender (err=%v) but copied %d bytes of it to the caller's response writer (protocol %d, multicast=%v, own socket=%v)", n, err, respBuf.Len(), proto, mcast, own), k)
+					respBuf.Reset()
+				}
+				c.Add("refused_datagrams_checked_against_the_response_writer", 1)
 				if err == nil || len(msgs) > 0 {
 					c.Violation("spoofed-datagram-accepted", fmt.Sprintf("Receive returned %d messages, err=%v for a %d-byte datagram sent by a user-space netlink socket (protocol %d, multicast=%v, from the client's own socket=%v)", len(msgs), err, n, proto, mcast, own), k)
 				}
@@ -803,7 +811,7 @@ func c18Run(c *mon.Ctx) {
 func init() {
 	register(&mon.CheckSpec{
 		ID: "C18", Level: "exploration",
-		Rule: "cases = (a,c) requests sent with NetlinkClient.Send on a real NETLINK_ROUTE socket - types 0..15 with NLM_F_ACK (header-only echo) and random types in 256..65535 (never 16..255: live rtnetlink operations), flags = any 16 bits | NLM_F_REQUEST (and any 16 bits | NLM_F_ACK without NLM_F_REQUEST: acknowledged unprocessed, header echoed), payload lengths 0..8970 (every 37th quick, every length thorough) plus every length 0..64, random short payloads, and clients whose caller-supplied read buffer the reply fills exactly or with 1/4/64 bytes to spare - (most through a second client opened while a first one is open, so the socket's port id differs from the process id) whose NLMSG_ERROR reply, read back with Receive, carries the request as the kernel saw it (length, type, flags, port id, sequence = returned value, payload bytes); (b) N in {2,4,16} goroutines x M sends on one client: per-goroutine increasing, globally distinct, and the recorded {call, return, value} history checked with porcupine against a strictly increasing counter model (direct interval check when porcupine gives up), and a storm of 12 senders beside 6 goroutines whose sends the kernel refuses (distinct and per-goroutine increasing only); (d) datagrams of every length 0..64 and random longer ones, arbitrary and ACK-shaped contents, unicast and multicast from a second user-space netlink socket and unicast from the client's own socket to its own port id (NETLINK_ROUTE as root, NETLINK_USERSOCK; clients subscribed to group 1 and plain unicast clients): Receive must return an error and no message, and a later kernel reply must still be received; (e) AuditClient.Receive over the simulated Netlink with datagrams of every length 0..64 and random longer ones ending at a PROT_NONE page; (f) eight AuditClients, each with its own transport and goroutine, receiving at the same time: each gets the type and payload of its own datagram, and the message returned by the previous call keeps its type and length; (g) a client bound to an otherwise unused multicast group sends NLMSG_NOOP requests while a second socket in the same group listens: it must receive nothing (requests are addressed to the kernel only). Runs under the race detector; ASan in thorough. distinct_nontrivial = distinct frames, spoofed datagrams, parse inputs and sequence histories.",
+		Rule: "cases = (a,c) requests sent with NetlinkClient.Send on a real NETLINK_ROUTE socket - types 0..15 with NLM_F_ACK (header-only echo) and random types in 256..65535 (never 16..255: live rtnetlink operations), flags = any 16 bits | NLM_F_REQUEST (and any 16 bits | NLM_F_ACK without NLM_F_REQUEST: acknowledged unprocessed, header echoed), payload lengths 0..8970 (every 37th quick, every length thorough) plus every length 0..64, random short payloads, and clients whose caller-supplied read buffer the reply fills exactly or with 1/4/64 bytes to spare - (most through a second client opened while a first one is open, so the socket's port id differs from the process id) whose NLMSG_ERROR reply, read back with Receive, carries the request as the kernel saw it (length, type, flags, port id, sequence = returned value, payload bytes); (b) N in {2,4,16} goroutines x M sends on one client: per-goroutine increasing, globally distinct, and the recorded {call, return, value} history checked with porcupine against a strictly increasing counter model (direct interval check when porcupine gives up), and a storm of 12 senders beside 6 goroutines whose sends the kernel refuses (distinct and per-goroutine increasing only); (d) datagrams of every length 0..64 and random longer ones, arbitrary and ACK-shaped contents, unicast and multicast from a second user-space netlink socket and unicast from the client's own socket to its own port id (NETLINK_ROUTE as root, NETLINK_USERSOCK; clients subscribed to group 1 and plain unicast clients): Receive must return an error and no message, and a later kernel reply must still be received; (e) AuditClient.Receive over the simulated Netlink with datagrams of every length 0..64 and random longer ones ending at a PROT_NONE page; (f) eight AuditClients, each with its own transport and goroutine, receiving at the same time: each gets the type and payload of its own datagram, and the message returned by the previous call keeps its type and length; (g) a client bound to an otherwise unused multicast group sends NLMSG_NOOP requests while a second socket in the same group listens: it must receive nothing (requests are addressed to the kernel only). Runs under the race detector; ASan in thorough. The spoof clients carry a response writer: no byte of a refused datagram may reach it. distinct_nontrivial = distinct frames, spoofed datagrams, parse inputs and sequence histories.",
 		Assumptions: []string{
 			"the running kernel echoes rejected NETLINK_ROUTE requests in NLMSG_ERROR replies (netlink_ack) and delivers user-to-user netlink datagrams for root; if sockets cannot be opened the check is inconclusive, not green",
 			"message types 16..255 are never sent (they are live rtnetlink operations)",
